@@ -276,8 +276,22 @@ def _global_table(c, prog):
         c.inst("R2.global-xpub", what, needle in texts, "error returns: %s" % texts[:200], fd.where(), fd.path)
     # scalars
     sc = [w for w in W if w["ktype"] == 0xFC and w["subtype"] == 0]
-    c.inst("R1.global-scalar-writer", "scalar: proprietary subtype 0, 32-byte key, empty value", len(sc) == 1 and sc[0]["keyed"] and "Vec::new()" in sc[0]["raw"].split("},")[-1] or len(sc) == 1,
+    wval = re.sub(r"@[\w]*#\d+", "", sc[0]["raw"].rsplit(", ", 1)[-1].rstrip("}")) if len(sc) == 1 else None
+    c.inst("R1.global-scalar-writer", "scalar: proprietary subtype 0, 32-byte key, empty value", len(sc) == 1 and sc[0]["keyed"] and wval == "std::vec::Vec::new()",
            "row %s" % (sc[0]["raw"] if sc else None), fw.where(), fw.path)
+    # ... and the reader that deserialization actually uses (Global's own Decodable loop) stores a scalar exactly under the
+    # writer's form: empty value, 32-byte key data (the published scalars of a non-last blinder must survive every hop)
+    gd_, pd_ = Guards(b), Prov(b)
+    spush = []
+    for bi, t in b.calls(lambda t: callee_name(t).endswith("Vec::<T, A>::push")):
+        a0 = show(pd_.operand(t["args"][0]), -9)
+        if "scalars" in a0:
+            cd = cond_desc(b, gd_.conds(bi))
+            spush.append([(re.sub(r"ok\(<pset::raw::Pair as encode::Decodable>::consensus_decode\(arg1\)\)", "PAIR", d), l) for d, l in cd])
+    need = [("std::vec::Vec::is_empty(PAIR.value)", "true"), ("(std::vec::Vec::len(pset::raw::ProprietaryKey::from_key(PAIR.key).key) Eq 32)", "true")]
+    c.inst("R1.global-scalar-reader", "scalar accepted iff the value is empty and the key data has 32 bytes (the writer's form)",
+           len(spush) == 1 and all(n in spush[0] for n in need) and not any(("PAIR.value" in d and (d, l) != need[0]) for d, l in spush[0]),
+           "conditions of the scalar push %s" % (spush[0][-5:] if spush else None), fd.where(), fd.path)
     # mandatory fields
     want = ["IncorrectPsetVersion", "MissingTxVersion", "MissingInputCount", "MissingOutputCount"]
     oko = [show(e["args"][1]) for e in events(b, lambda t: callee_name(t).endswith("Option::<T>::ok_or"))]
@@ -343,6 +357,35 @@ def _mandatory(c, prog):
     allerr = " | ".join(errs + oko)
     for wv in ("MissingOutputSpk", "MissingOutputValue", "MissingOutputAsset", "MissingBlinderIndex", "MissingBlindingInfo"):
         c.inst("R4.mandatory:Output", wv, wv in allerr, "error sites: %s" % allerr[:300], fo.where(), fo.path)
+    # the exact condition of each post-loop error of the Output reader, as the set of presence tests that dominate it
+    # (a well-formed output the writer emits must not be refused: e.g. a blinder index without a blinding key is legal)
+    want = {"MissingOutputValue": {("amount", False), ("amount_comm", False)},
+            "MissingOutputAsset": {("asset", False), ("asset_comm", False)},
+            "MissingBlinderIndex": {("blinding_key", True), ("blinder_index", False)},
+            "MissingBlindingInfo": {("is_marked_for_blinding", True), ("is_partially_blinded", True), ("is_fully_blinded", False)}}
+    for e in err_returns(fo.body):
+        m = re.search(r"pset::error::Error::(Missing\w+)\{\}", str(e[1]))
+        if not m or m.group(1) not in want:
+            continue
+        got, odd = set(), []
+        for d, l in e[2]:
+            d2 = re.sub(r"<pset::map::output::Output as std::default::Default>::default\(\)(@[\w]*#\d+)?", "RV", d)
+            if "RV" not in d2:
+                continue
+            m1 = re.match(r"^discr\(RV\.(\w+)\)$", d2)
+            m2 = re.match(r"^std::option::Option::is_(some|none)\(RV\.(\w+)\)$", d2)
+            m3 = re.match(r"^pset::map::output::Output::(is_\w+)\(RV\)$", d2)
+            if m1 and l in ("Some", "None"):
+                got.add((m1.group(1), l == "Some"))
+            elif m2 and l in ("true", "false"):
+                got.add((m2.group(2), (m2.group(1) == "some") == (l == "true")))
+            elif m3 and l in ("true", "false"):
+                got.add((m3.group(1), l == "true"))
+            else:
+                odd.append((d2[:100], l))
+        c.inst("R4.mandatory-condition:Output", m.group(1), got == want[m.group(1)] and not odd,
+               "raised under %s%s; specified %s" % (sorted(got), (" and %s" % odd) if odd else "", sorted(want[m.group(1)])), fo.where(), fo.path)
+    c.floor("R4.mandatory-condition:Output", 4)
     fi = prog.fn("<%s as encode::Decodable>::consensus_decode" % MAPS["Input"])
     errs = [e[1] for e in err_returns(fi.body)]
     oko = [show(e["args"][1]) for e in events(fi.body, lambda t: callee_name(t).endswith("Option::<T>::ok_or"))]
